@@ -15,6 +15,7 @@ def run(ctx):
     ctx.run(M.lit1_null_patterns)
     ctx.run(B.pan7_empty_batch_is_applicable)
     ctx.run(B.tbl22_client_column_push_uses_row_position)
+    ctx.run(B.tbl25_decoder_validates_what_the_applier_assumes)
     return ctx.finish(
         'Static rules: the ingestion message codec and the response codec map every variant to '
         'union members the reader maps back to the same variant; each narrow integer layout is '
